@@ -74,19 +74,22 @@ theorem clone_without_deletions_counterexample :
         mergeStep, Except.map, Inv.insert, lookup, Cfg.view, Cfg.lower, mergeLevels]
     · simp [Cfg.viewT, Cfg.baseT, Cfg.lower, viewT, mergeLevelsT, mergeT_cons, mergeVal, obl_cons, oblStep, Inv.insert, lookup, erase, node]
 
-/-- KNOWN FINDING C11-into-overwrites-defaults.  `clone(into=Subclass)` merges the subclass's global
-    defaults ON TOP of the original's defaults level: a setting the original reads as `1` reads `0`
-    in the clone. -/
-theorem clone_into_overwrites_counterexample :
+/-- `clone(into=Subclass)` (as repaired, finding C11-into-overwrites-defaults): the original's
+    defaults level wins over the subclass's global defaults - a setting the original reads as `1`
+    still reads `1` in the clone although the subclass defaults say `0` - and the subclass only
+    contributes what the original lacks (`a.n`). -/
+theorem clone_into_keeps_original_defaults :
     let c : Cfg := { defaults := [(['a'], .dict [(['b'], .leaf (.i 1))])] }
-    let into : KVs := [(['a'], .dict [(['b'], .leaf (.i 0))])]
+    let into : KVs := [(['a'], .dict [(['b'], .leaf (.i 0)), (['n'], .leaf (.i 5))])]
     node [['a'], ['b']] c.viewT = some (.leaf (.i 1)) ∧
-    ∃ k, c.clone into = .ok k ∧ node [['a'], ['b']] k.viewT = some (.leaf (.i 0)) := by
+    ∃ k, c.clone into = .ok k ∧ node [['a'], ['b']] k.viewT = some (.leaf (.i 1)) ∧
+      node [['a'], ['n']] k.viewT = some (.leaf (.i 5)) := by
   refine ⟨?_, ?_⟩
   · simp [Cfg.viewT, Cfg.baseT, Cfg.lower, viewT, mergeLevelsT, mergeT_cons, mergeVal, obl_cons, oblStep, Inv.insert, lookup, erase, node]
-  · refine ⟨{ defaults := [(['a'], .dict [(['b'], .leaf (.i 0))])] }, ?_, ?_⟩
+  · refine ⟨{ defaults := [(['a'], .dict [(['b'], .leaf (.i 1)), (['n'], .leaf (.i 5))])] }, ?_, ?_, ?_⟩
     · simp [Cfg.clone, Generated.cloneSlots, Cfg.cloneWith, cloneSlots, cloneSlot, Slot.all, Slot.name, Cfg.get,
         Cfg.set, copyDict, mergeKVs_cons, mergeStep, Except.map, Inv.insert, lookup, Cfg.view, Cfg.lower, mergeLevels]
+    · simp [Cfg.viewT, Cfg.baseT, Cfg.lower, viewT, mergeLevelsT, mergeT_cons, mergeVal, obl_cons, oblStep, Inv.insert, lookup, erase, node]
     · simp [Cfg.viewT, Cfg.baseT, Cfg.lower, viewT, mergeLevelsT, mergeT_cons, mergeVal, obl_cons, oblStep, Inv.insert, lookup, erase, node]
 
 /-! Non-vacuity: a type-consistent configuration with a modification and a deletion mark, and its clone. -/
